@@ -183,6 +183,11 @@ def run_unit(unit, workdir, canary=False, rlimit=None, timeout=900, tpl_path=Non
     if unknown and not [b for b in ver if VERIF_ERR.search(b['text'])]:
         res['reason'] = 'unclassified verus error: ' + ' | '.join(b['msg'] for b in unknown)[:800]
         return res
+    lost = res.get('extraction', {}).get('lost_anchors', [])
+    if lost:
+        # proof hints could not be placed (the code around an anchor changed): a failure now may be a missing hint
+        res['reason'] = 'anchor(s) lost, proof hints dropped, verification then failed: ' + '; '.join(lost)[:600]
+        return res
     res['status'] = 'fail'
     for b in ver:
         res['failed'].append({'function': lf.get(b['line']) if b['line'] else None, 'line': b['line'], 'msg': b['msg'],
